@@ -562,7 +562,8 @@ impl Run {
                         failure_persistence: None,
                         rng_seed: RngSeed::Fixed(h.finish()),
                         max_shrink_iters: shrink_iters,
-                        max_global_rejects: 65536,
+                        max_global_rejects: u32::MAX,
+                        max_local_rejects: u32::MAX,
                         ..Config::default()
                     };
                     let mut runner = TestRunner::new(cfg);
